@@ -404,7 +404,10 @@ def _writeExtFileImageData(strikeIndex, glyphName, bitmapObject, writer, ttFont)
         # fall back to current directory if output file's directory isn't found
         folder = "."
     folder = os.path.join(folder, "bitmaps")
-    filename = glyphName + bitmapObject.fileExtension
+    # the glyph name comes from the font: never let it choose the directory
+    from fontTools.misc.filenames import userNameToFileName
+
+    filename = userNameToFileName(glyphName, suffix=bitmapObject.fileExtension)
     if not os.path.isdir(folder):
         os.makedirs(folder)
     folder = os.path.join(folder, "strike%d" % strikeIndex)
